@@ -2,6 +2,10 @@
 // real code: src/paged_writer.rs  (default configuration: cargo feature crc32c off)
 use vstd::prelude::*;
 verus! {
+//@nopub
+//@include ioerr.rs
+//@include error.rs
+//@include dev.rs
 //@include page_w_body.rs
 } // verus!
 fn main() {}
